@@ -1,5 +1,6 @@
 import MosdnsVerif.Driver.Handler
 import MosdnsVerif.Model.C03Sel
+import MosdnsVerif.Model.C03Store
 
 /-! Driver of C03: the `reply` lines of `Driver.Handler` plus `sel` lines - chains of redirect and the
 dual-stack selector in front of a last plugin scripted per query type, run on `Model.C03Sel`. -/
@@ -72,6 +73,33 @@ def entrySub? (s : String) (up : Ctx → Ctx × Bool) (chain : List Plug) : Opti
       runChain true (fun c => let r := up c; if r.2 then r else (localAnswer n [] [] r.1, false)) chain)
   | _ => none
 
+/-- chain of `store` lines: `r:<pattern>:<target>` (a `full` redirect rule), `c` (a cache, numbered in chain order),
+`a` (`[has_resp] accept`) -/
+def storeChain? : List String → Nat → Option (List Model.C03Store.Plug)
+  | [], _ => some []
+  | s :: rest, n =>
+    match s.splitOn ":" with
+    | ["r", pat, target] => do
+      let pat ← Hex.decode pat
+      let target ← Hex.decode target
+      let t ← storeChain? rest n
+      pure (.redirect pat target :: t)
+    | ["c"] => (storeChain? rest (n + 1)).map (fun t => .cache n :: t)
+    | ["a"] => (storeChain? rest n).map (fun t => .accept :: t)
+    | _ => none
+
+/-- one query of a history: `<id>:<name>:<cd>` -/
+def storeOp? (s : String) : Option (Nat × Bytes × Bool) :=
+  match s.splitOn ":" with
+  | [id, name, cd] => do
+    let id ← id.toNat?
+    let name ← Hex.decode name
+    let cd ← Hex.bool? cd
+    pure (id, name, cd)
+  | _ => none
+
+/- `store <qtype> <qclass> <chain> <history>`: the reply to the LAST query of the history (Model.C03Store, as built:
+the stored message has its own Question slice) -/
 /-- `sel <id> <qr> <opcode> <rd> <cd> <nq> <name> <qtype> <qclass> <nAns> <nNs> <extras> <chain> <outA> <outAAAA> <outOther>` -/
 def handle : List String → String
   | ["sel", id, qr, opc, rd, cd, nq, name, qt, qc, na, nn, ex, chain, oa, o4, oo] =>
@@ -96,6 +124,13 @@ def handle : List String → String
       | some entry => showOut (replyS true entry (fun m _ => m) false (mkQuery id qr opc rd cd nq name qt qc na nn ex))
       | none => "bad-op"
     | _, _, _, _, _, _, _, _, _, _, _, _, _, _, _, _ => "bad-op"
+  | ["store", qt, qc, chain, ops] =>
+    match qt.toNat?, qc.toNat?, storeChain? (chain.splitOn ",") 0, (ops.splitOn ",").mapM storeOp? with
+    | some qt, some qc, some chain, some ops =>
+      match (Model.C03Store.history true chain ops {}).getLast? with
+      | some (id, name, rc) => s!"id={id} q={Hex.encode name}/{qt}/{qc} qr=1 ra=1 rcode={rc}"
+      | none => "bad-op"
+    | _, _, _, _ => "bad-op"
   | l => Driver.Handler.handle l
 
 end Driver.C03
